@@ -15,7 +15,7 @@ def check(chk, thorough=False):
     chk.run('C08.a', 'R-ORDER', 'the CRC update precedes the encode which precedes the one transmission site, with nothing in between that can change the bundle', lambda ob: c08a(tree, ob), floor=3)
     chk.run('C08.b', 'R-ORDER', 'on receive the CRC gate (check, return on failure) dominates the seen-set add, every recorded action, the chain, reporting and forwarding', lambda ob: c08b(tree, ob), floor=6)
     chk.run('C08.c', 'sibling', 'update_crc and check_crc compute the CRC the same way (zeroed field of the right width, whole block, same algorithm table); both all-block loops cover primary and every canonical block', lambda ob: c08c(tree, ob), floor=8)
-    chk.run('C08.e', 'R-SCHEMA', 'the decode is faithful to the CBOR type of every item (integer, byte string and endpoint ID fields refuse items of another type), so the re-encoding the CRC check signs is the block that arrived', lambda ob: c08e(tree, ob), floor=29)
+    chk.run('C08.e', 'R-SCHEMA', 'the decode is faithful to the CBOR type of every item (integer, byte string and endpoint ID fields refuse items of another type), so the re-encoding the CRC check signs is the block that arrived', lambda ob: c08e(tree, ob), floor=30)
     chk.run('C08.f', 'R-TRUTH', 'decoding keeps every bit of flags and values, so the re-encoding that the CRC check signs is the block that arrived (= C02.e)', lambda ob: __import__('sa.props.c02', fromlist=['c02e']).c02e(tree, ob), floor=20)
     chk.run('C08.g', 'R-NOPATH', 'a block that cannot be decoded fails the bundle instead of vanishing from it (list decoder does not skip; every block indexed) (= C12.j)', lambda ob: __import__('sa.props.c12', fromlist=['c12j']).c12j(tree, ob), floor=2)
     chk.run('C08.h', 'R-GUARD', 'the received block data is what the CRC check sees: parsed payloads are not written back over it (= C02.d)', lambda ob: __import__('sa.props.c02', fromlist=['c02d']).c02d(tree, ob), floor=3)
@@ -457,6 +457,7 @@ def c08e(tree, ob):
         else:
             ob.violate(frel, 'EidField.m2i', src(r)[:60] + '  (no comparison of self.i2m(...) with the item)', 'an endpoint ID is decoded from an item that the encoder would spell differently (surplus array members ignored, '
                        '"none" as text, node name without its slash): the block re-encodes to the octets the sender protected although other octets arrived, so a burst of the CRC width passes', r)
+    eid_null_refused(tree, ob)
     for item in eid_foreign:
         out = absint.run(m.body, {arg: item}, consts)
         if refused(out):
@@ -464,3 +465,27 @@ def c08e(tree, ob):
         else:
             ob.violate(frel, 'EidField.m2i', 'item {!r}'.format(item), 'an endpoint ID is decoded from {!r}, which is not the encoding of an endpoint ID but indexes / compares like one: '
                        'it re-encodes as the signed EID, so a burst that changes an item type inside an EID passes the CRC check'.format(item), out.node or m)
+
+
+def eid_null_refused(tree, ob):
+    # null: inside the program None stands for "no value" (m2i(None) is None, i2m(None) is dtn:none), so on the wire it must not
+    # get as far as m2i -- the decode path (getfield, then m2i) has to RAISE for a null item, returning None is the alias
+    from .. import absint
+    frel = 'bp/encoding/fields.py'
+    cls = tree.klass(frel, 'EidField')
+    m = one([x for x in cls.body if isinstance(x, ast.FunctionDef) and x.name == 'm2i'], 'EidField.m2i', ob)
+    ob.require(len(m.args.args) == 3, 'EidField.m2i signature')
+    arg = m.args.args[2].arg
+    consts = {'EidField.TypeCode.dtn': 1, 'EidField.TypeCode.ipn': 2, 'self.TypeCode.dtn': 1, 'self.TypeCode.ipn': 2}
+    gf = [x for x in cls.body if isinstance(x, ast.FunctionDef) and x.name == 'getfield']
+    if gf and len(gf[0].args.args) == 3:
+        out = absint.run(gf[0].body, {gf[0].args.args[2].arg: [None]}, consts)
+        where = gf[0]
+    else:
+        out = absint.run(m.body, {arg: None}, consts)
+        where = m
+    if out.kind == 'raise':
+        ob.site(frel, where, 'EidField: a null item is refused')
+    else:
+        ob.violate(frel, 'EidField.' + where.name, 'item None (CBOR null)', 'a null in the place of an endpoint ID decodes to None, which i2m() encodes as dtn:none ([1, 0]): the block re-encodes to '
+                   'the octets the sender protected although other octets arrived, and passes the CRC check and the BPSec AAD', out.node or where, sure=True)
